@@ -2953,6 +2953,17 @@ class Evaluator:
                 ev_.kw_order = [k for k, _ in named]  # type: ignore[attr-defined]
                 return t_
             return dist(f, live)
+        # operator.methodcaller("m", a)(x) is x.m(a)
+        if f[0] == "call" and f[1] == ("ext", "operator.methodcaller") and plain and len(args) == 1 and f[2] and f[2][0][0] == "const" \
+                and isinstance(f[2][0][1], str) and not any(a_[0] == "star" for a_ in f[2]):
+            v_ = ("call", ("attr", args[0], f[2][0][1]), tuple(f[2][1:]), tuple(f[3]))
+            ev_ = self.emit("call", live, v_, n)
+            ev_.kw_order = [k_ for k_, _ in f[3]]  # type: ignore[attr-defined]
+            return v_
+        # operator.itemgetter(k1, k2)(x) with any keys is (x[k1], x[k2])
+        if f[0] == "call" and f[1] == ("ext", "operator.itemgetter") and plain and len(args) == 1 and len(f[2]) >= 2 and not f[3] \
+                and not any(a_[0] == "star" for a_ in f[2]) and not all(k_[0] == "const" for k_ in f[2]):
+            return ("tuple", tuple(("sub", args[0], k_) for k_ in f[2]))
         # operator.attrgetter("a.b")(x) is x.a.b ; operator.itemgetter(k)(x) is x[k]
         if f[0] == "call" and f[1] == ("ext", "operator.itemgetter") and plain and len(args) == 1 and len(f[2]) >= 2:
             v = self._apply_fn(f, args)
@@ -3777,13 +3788,30 @@ class Evaluator:
         if len(n.generators) != 1:
             return None
         g = n.generators[0]
-        if g.ifs or g.is_async or not (isinstance(g.iter, (ast.Tuple, ast.List, ast.Name, ast.Attribute)) or (
+        table_rows_ = isinstance(g.iter, ast.Call) and isinstance(g.iter.func, ast.Attribute) and g.iter.func.attr in ("items", "keys", "values") \
+            and not g.iter.args and not g.iter.keywords and isinstance(g.iter.func.value, (ast.Name, ast.Attribute))
+        if g.ifs or g.is_async or not (isinstance(g.iter, (ast.Tuple, ast.List, ast.Name, ast.Attribute)) or table_rows_ or (
                 isinstance(g.iter, ast.Call) and isinstance(g.iter.func, ast.Name) and g.iter.func.id == "zip" and "zip" not in self.env)):
             return None
         if any(isinstance(x, ast.NamedExpr) for x in ast.walk(n)):
             return None
         mark = len(self.events)
         it = self.ev(g.iter, live)
+        if table_rows_:
+            # {k: f(k, v) for k, v in TABLE.items()} over a module-level table with constant keys that nothing mutates: over its rows
+            rows_ = None
+            if it[0] == "call" and it[1][0] == "attr" and it[1][1][0] == "global" and it[1][1][2] == "assign":
+                try:
+                    m_, node_ = self.index.need_assign(*it[1][1][1].split(":"))
+                except (AnalysisError, ValueError):
+                    node_ = None
+                ks_ = self._table_keys(it[1][1]) if isinstance(node_, ast.Dict) else None
+                rows_ = self._table_rows(it[1][1], m_, node_, ks_) if ks_ is not None else None
+            if rows_ is None:
+                del self.events[mark:]
+                return None
+            del self.events[mark:]
+            it = ("tuple", tuple(("tuple", (k_, v_)) if it[1][2] == "items" else (k_ if it[1][2] == "keys" else v_) for k_, v_ in rows_))
         if it[0] == "call" and it[1] == ("builtin", "zip") and len(it[2]) >= 2 and not it[3] and len(self.events) == mark + 1 \
                 and any(a_[0] in ("tuple", "list") for a_ in it[2]):
             # zip((a, b), xs): the pairs (a, xs[0]), (b, xs[1]) -- as long as xs has that many items (zip would stop early)
@@ -4421,6 +4449,22 @@ def fold_sub(t):
         return t[2] if t[1] == TRUE else t[3]
     if t and t[0] in ("list", "tuple") and len(t) == 2 and isinstance(t[1], tuple) and any(isinstance(x, tuple) and x and x[0] == "star" for x in t[1]):
         t = _splice_stars(t)
+    if t and t[0] == "call" and len(t) == 4 and t[1][0] == "attr" and t[1][2] == "get" and t[1][1][0] == "dict" and len(t[2]) in (1, 2) and not t[3] \
+            and t[2][0][0] == "const" and all(kv[0] != ("dstar",) and kv[0][0] == "const" for kv in t[1][1][1]):
+        # {"a": x, "b": y}.get("a", d) of an explicit display with constant keys
+        hit_ = [kv[1] for kv in t[1][1][1] if kv[0] == t[2][0]]
+        return hit_[-1] if hit_ else (t[2][1] if len(t[2]) == 2 else NONE)
+    if t and t[0] == "call" and len(t) == 4 and isinstance(t[3], tuple) and any(k_ == "**" and v_[0] == "dict" and all(
+            kv[0] != ("dstar",) and kv[0][0] == "const" and isinstance(kv[0][1], str) for kv in v_[1]) for k_, v_ in t[3]):
+        # f(**{"a": x, "b": y}) once the display is explicit is f(a=x, b=y)
+        kws_ = []
+        for k_, v_ in t[3]:
+            if k_ == "**" and v_[0] == "dict" and all(kv[0] != ("dstar",) and kv[0][0] == "const" and isinstance(kv[0][1], str) for kv in v_[1]):
+                kws_ += [(kv[0][1], kv[1]) for kv in v_[1]]
+            else:
+                kws_.append((k_, v_))
+        if len({k_ for k_, _ in kws_ if k_ != "**"}) == len([k_ for k_, _ in kws_ if k_ != "**"]):
+            t = ("call", t[1], t[2], tuple(sorted([kv for kv in kws_ if kv[0] != "**"], key=lambda kv: kv[0]) + [kv for kv in kws_ if kv[0] == "**"]))
     if t and t[0] == "call" and len(t) == 4 and isinstance(t[2], tuple) and any(
             isinstance(a, tuple) and a and a[0] == "star" and a[1][0] in ("tuple", "list") and not any(x[0] == "star" for x in a[1][1]) for a in t[2]):
         args_ = []
